@@ -146,6 +146,17 @@ PROPS["C10"] = dict(
                  "exhaustive refers to the crash states of each generated configuration, not to the space of configurations"],
 )
 
+CAP = "poc/engine/spacekeeper/capacity"
+PROPS["C15"] = dict(
+    pkgs=[CAP], level="exploration", death_is_violation=True,
+    quick=dict(checks=320, shards=16, timeout=600),
+    thorough=dict(checks=6400, shards=16, timeout=2400),
+    technique="property-based testing: rapid-generated reconfiguration histories on real directories, header-only plot files and a real wallet; arithmetic oracle on the selection, directory diff, restart re-index",
+    level_text="Generated sequences of ConfigureBySize/ByPath/ByBitLength/ByFlags, remove/delete and restarts; after each the selection is judged arithmetically (<= request, shortfall < smallest plot), reuse-before-create, placement of new files, exact counts; rejected requests must leave directories and wallet counters untouched; a second keeper must re-index the same spaces. Exploration.",
+    level_note="Trusted: mass-core PlotSize; gopsutil free-space readings (the reject path asks for free space + delta).",
+    assumptions=["plot files are created header-only (massdb.v1 does not pre-allocate), so sizes up to a few GiB are cheap", "bit lengths for ByBitLength limited to 24..32"],
+)
+
 META = dict(
     na_default="check not built yet in this session (work in progress; see DESIGN.md §4) - not a claim that the technique cannot apply",
     hooks=dict(guard="verif", enable="go test -tags verif (the driver ./check always builds with -tags verif through -overlay/-modfile, see DESIGN.md §2.2)",
